@@ -5,6 +5,9 @@
                 mixed history, on the same or on an equal instance - must carry the same bit-exact result digest
   hist.fresh    a sample of events of each history is re-executed FIRST in a fresh interpreter (one subprocess per
                 event: build, one call, digest) and compared bit for bit with every in-history occurrence
+  hist.reuse    every catalogue class: one instance called at (x1,t1), (x2,t2), (x1,t1) - first and third result bit-equal, and
+                the second bit-equal to the first call of a fresh, identically constructed instance (state kept on the
+                instance between calls: cached radii, per-call attributes, warm starts)
   batch         the value at a point is unchanged (1e-10) by permutation, subsets, supersets and duplicates of the
                 other points of the request; grid-dependent solvers (Sedov, Mader) are compared on the same grid
                 and, where the grid changes with the request, within their documented resolution
@@ -419,6 +422,62 @@ def run_batch(ctx, p):
                     detail=dict(params=d["passed"], t=t))
 
 
+# ---- one instance, several times: a later call must not depend on the earlier calls of the same object ---------------------------
+def reuse_entries():
+    return sorted(k for k, e in C.CAT.items() if e["cost"] <= 5)
+
+
+def gen_reuse(rng, i, tier):
+    ents = reuse_entries()
+    return dict(entry=ents[i % len(ents)], seed=int(rng.integers(2 ** 31)))
+
+
+def run_reuse(ctx, p):
+    ent = p["entry"]
+    e = C.CAT[ent]
+    if e["cost"] >= 1 and p["seed"] % 3 and not ctx.thorough():
+        raise Skip("costly_class_thinned")
+    cls = C.load(e["path"])
+    name = cls.__name__
+    n = 5 if e["cost"] >= 0.2 else 9
+    d = C.draw(ctx, cls, ent, np.random.default_rng(p["seed"]), n=n)
+    if d is None:
+        raise Skip("no_admissible_draw")
+    s, pts1, t1, A = d["solver"], np.asarray(d["points"], float), d["t"], d["sol"]
+    rng2 = np.random.default_rng(p["seed"] + 1)
+    pts2, t2 = None, None
+    for _ in range(6):
+        pts2, t2 = e["domain"](rng2, s, d["full"], d["geom"], n)
+        if t2 != t1:
+            break
+    pts2 = np.asarray(pts2, float)
+    det = dict(t1=t1, t2=t2, params={k: v for k, v in d["passed"].items() if isinstance(v, (int, float, str))}, geometry=d["geom"])
+    try:
+        B = ctx.call(s, pts2.copy(), t2)
+        A2 = ctx.call(s, pts1.copy(), t1)
+    except SolverRaised:
+        ctx.count("reuse_call_raised:" + name)
+        raise Skip("second call raised")
+    nz = any(np.any(np.asarray(A[f], float) != 0) for f in A.dtype.names if A[f].dtype.kind == "f")
+    w, wf = worst_diff(S.values(A), S.values(A2))
+    ctx.observe("hist.reuse", name, S.digest(A) == S.digest(A2), branch="call (x1,t1), (x2,t2), (x1,t1): first == third" + ("" if t2 != t1 else " [t2 == t1]"),
+                measure=w, detail=dict(det, field=wf), nontrivial=nz)
+    # the second call against the first call of a fresh, identically constructed instance
+    try:
+        if e["build"] is not None:
+            s2, _, _, _ = C.instantiate(ctx, cls, ent, np.random.default_rng(0), geom=d["geom"], kwargs=d["passed"])
+        else:
+            s2, _, _, _ = C.instantiate(ctx, cls, ent, np.random.default_rng(0), geom=d["geom"], kwargs={k: v for k, v in d["passed"].items() if k != "geometry"})
+        B2 = ctx.call(s2, pts2.copy(), t2)
+    except SolverRaised:
+        ctx.count("reuse_fresh_instance_raised:" + name)
+        return
+    w, wf = worst_diff(S.values(B), S.values(B2))
+    nz = any(np.any(np.asarray(B[f], float) != 0) for f in B.dtype.names if B[f].dtype.kind == "f")
+    ctx.observe("hist.reuse", name, S.digest(B) == S.digest(B2), branch="second call of a used instance == first call of a fresh one" + ("" if t2 != t1 else " [t2 == t1]"),
+                measure=w, detail=dict(det, field=wf), nontrivial=nz)
+
+
 def reach(tot, tier):
     out = []
     n = sum(st["evals"] for k, st in tot["stats"].items() if k.startswith("hist.fresh|"))
@@ -433,5 +492,6 @@ def reach(tot, tier):
 
 UNITS = [
     Unit("history", gen_hist, run_hist, quick=96, thorough=960, min_nontrivial=150),
+    Unit("reuse", gen_reuse, run_reuse, quick=60 * 4, thorough=60 * 40, min_nontrivial=120),
     Unit("batch", gen_batch, run_batch, quick=len(BATCH) * 4, thorough=len(BATCH) * 40, min_nontrivial=200),
 ]
